@@ -32,6 +32,7 @@ pub fn unary_corpus() -> Vec<Value> {
     let mut v = alphabet::ws_block_strings();
     v.extend(alphabet::mutated_literals());
     v.extend(alphabet::radix_families());
+    v.extend(alphabet::integer_digit_strings());
     alphabet::dedup(v)
 }
 
